@@ -5,7 +5,7 @@
 set -u
 export GOFLAGS=-mod=mod GOPROXY=off
 id=$1; name=$2
-src=/tmp/seed_$id/out/$name
+src=/verif/seeded/${id}_$name
 wt=/tmp/sv_${id}_$name
 [ -f $src/patch.diff ] || { echo "VERIFY $id/$name: no patch"; exit 2; }
 git -C /repo worktree remove --force $wt >/dev/null 2>&1
@@ -14,7 +14,7 @@ place=$(head -5 $src/demo_test.go | grep -o 'place in: *[^ ]*' | head -1 | sed '
 [ -z "$place" ] && place=.
 cp $src/demo_test.go $wt/$place/zz_seed_demo_test.go
 cd $wt
-run_demo() { go test -vet=off -count=1 -timeout 300s ./$place/ -run 'Seed|Demo|C[0-9][0-9]' 2>&1 | tail -40; }
+run_demo() { go test -vet=off -count=1 -timeout 300s ./$place/ -run 'Seed|Demo|C[0-9][0-9]|M[0-9]' 2>&1 | tail -40; }
 d0=$(run_demo); echo "$d0" | grep -q "^ok" && r0=pass || r0=fail
 if ! git apply $src/patch.diff 2>/dev/null; then echo "VERIFY $id/$name: patch does not apply"; cd /; git -C /repo worktree remove --force $wt; exit 2; fi
 go build ./... >/dev/null 2>&1 && b=ok || b=fail
